@@ -106,7 +106,9 @@ def run_dataset(ctx, prop, case, via='function', index=0, reference=None, kinds=
             if verbosity == 3:
                 rec.hit('curves-assembled-with-debug-messages-on')
             exc = curves_common.run_curve(connection, kind, None if reference is None else reference.get(kind), db if via == 'cli' else None,
-                                          verbosity=verbosity)
+                                          verbosity=verbosity, row_factory=(via == 'function' and index % 5 == 4))
+            if via == 'function' and index % 5 == 4:
+                rec.hit('curves-assembled-on-a-connection-with-a-row-factory')
             if exc is not None:
                 key, desc = curves_common.classify_outcome(exc)
                 if desc['origin'] == 'harness':
